@@ -106,7 +106,14 @@ def run(db, res, tier):
   # sibling launches must be gated by the same flags, in both directions
   from ..rules import r_flags
 
-  sib = [("inverse._qfrc_eulerdamp", "forward._euler_damp_qfrc"), ("forward._euler_damp_qfrc", "inverse._qfrc_eulerdamp")]
+  def _evaluates_damping_deriv(lc):
+    return any("poly_force_deriv" in c for c in lc.keval.calls)
+
+  fk = sorted({lc.name.split(".kernel")[0] for lc in db.trace_launch_ctxs("forward.euler") if _evaluates_damping_deriv(lc)})
+  ik = sorted({lc.name.split(".kernel")[0] for lc in inv_lcs if lc.fi.module == "inverse" and _evaluates_damping_deriv(lc)})
+  sib = [(a, b) for a in ik for b in fk] + [(b, a) for a in ik for b in fk]
+  if not sib:
+    res.error("anchor vanished: no kernel evaluating the damping-derivative function in forward.euler / inverse.discrete_acc")
   ng = r_flags.check_sibling_gating(
     res, db, ["forward.euler", "inverse.inverse"], sib, ["EULERDAMP", "DAMPER"], rule="R-FLAGS.5",
     why="with {setbits} disabled no launch of {fk} is reachable but its forward/inverse sibling {dk} is still launched: the Euler step and the discrete-time inverse (INVDISCRETE) disagree on whether joint damping is integrated implicitly, so inverse(forward) is no longer the identity",
@@ -131,10 +138,12 @@ def run(db, res, tier):
           out.add(("" if pol else "not ") + show(_canon(lc, t, memo)))
     return out
 
-  f_damp = [lc for lc in db.trace_launch_ctxs("forward.euler") if lc.name == "forward._compute_damping_deriv"]
-  i_damp = [lc for lc in inv_lcs if lc.name == "inverse._qfrc_eulerdamp"]
+  # siblings are identified by what they do (evaluate the damping-derivative function), not by name: fusing or
+  # renaming kernels keeps the anchor
+  f_damp = [lc for lc in db.trace_launch_ctxs("forward.euler") if _evaluates_damping_deriv(lc)]
+  i_damp = [lc for lc in inv_lcs if lc.fi.module == "inverse" and _evaluates_damping_deriv(lc)]
   if not f_damp or not i_damp:
-    res.error("anchor vanished: forward._compute_damping_deriv / inverse._qfrc_eulerdamp launches")
+    res.error("anchor vanished: no kernel evaluating the damping-derivative function in forward.euler / inverse.discrete_acc")
   else:
     gf = model_guards(f_damp[0], lambda a: True)
     gi = model_guards(i_damp[0], lambda a: True)
@@ -149,7 +158,8 @@ def run(db, res, tier):
     n += 1
     res.ob(bool(cf) and cf == ci, "eulerdamp|sibling-derivative-func", Finding("R-SIB.1", "inverse._qfrc_eulerdamp|forward._compute_damping_deriv|different-derivative", f"the two siblings evaluate different damping-derivative functions ({sorted(cf)} vs {sorted(ci)})", i_damp[0].ev.loc))
     def model_reads(lc):
-      return {f"{lc.field(a.root).path}" for a in lc.keval.accesses if not a.is_write and lc.field(a.root) is not None and lc.field(a.root).owner == "Model" and not lc.field(a.root).path.startswith("opt.")}
+      # the damping parameters only: a fused kernel may read further fields (M addresses, timestep) for its other duties
+      return {f"{lc.field(a.root).path}" for a in lc.keval.accesses if not a.is_write and lc.field(a.root) is not None and lc.field(a.root).owner == "Model" and "damping" in lc.field(a.root).path}
     n += 1
     res.ob(model_reads(f_damp[0]) == model_reads(i_damp[0]), "eulerdamp|sibling-model-fields", Finding("R-SIB.1", "inverse._qfrc_eulerdamp|forward._compute_damping_deriv|different-model-fields", f"the two siblings read different damping parameters ({sorted(model_reads(f_damp[0]))} vs {sorted(model_reads(i_damp[0]))})", i_damp[0].ev.loc))
   # (5) INVDISCRETE: qacc is restored
